@@ -359,7 +359,46 @@ def classify(v: dict) -> str | None:
 	# Matched only on: call node, an argument statically Union<X, None>, the call statically X, the run-time value None.
 	if v['kind'] == 'type-differs' and m.get('kind') == 'FuncCall' and m.get('dynamic') == 'None' and any(a == f'Union<{m.get("static")}, None>' for a in m.get('arg_static', [])):
 		return 'optional-argument-collapses-to-first-member'
+	# Open finding 'generic-method-result-through-second-level-subclass': Box[T].first() -> T called on an instance of Counter, where
+	# Counter(IntBox) and IntBox(Box[int]): the result is typed as the receiver's class. Matched only on the committed witness and on
+	# exactly that static type.
+	if v['kind'] == 'type-differs' and v.get('case', {}).get('witness') == 'inherited-generic-method' and m.get('static') in ('Counter', 'list<Counter>') and m.get('dynamic') in ('int', 'list<int>', 'list[int]'):
+		return 'generic-method-result-through-second-level-subclass'
 	return None
+
+
+WITNESS_INHERITED_GENERIC_METHOD = '''from typing import Generic, TypeVar
+
+T = TypeVar('T')
+
+
+class Box(Generic[T]):
+	items: list[T]
+
+	def __init__(self, v: T) -> None:
+		self.items = [v]
+
+	def first(self) -> T:
+		return self.items[0]
+
+	def all(self) -> list[T]:
+		return self.items
+
+
+class IntBox(Box[int]):
+	pass
+
+
+class Counter(IntBox):
+	pass
+
+
+def entry(n: int) -> int:
+	one = IntBox(n).first()
+	two = Counter(n).first()
+	many = Counter(n).all()
+	return n
+'''
 
 
 PROTOCOLS = '''from collections.abc import Callable, Iterator
@@ -516,6 +555,117 @@ def protocols(flag: bool) -> int:
 '''
 
 
+PROTOCOLS2 = '''from typing import Generic, TypeVar, override
+
+T = TypeVar('T')
+
+
+class Shape:
+	side: float
+
+	def __init__(self, side: float) -> None:
+		self.side = side
+
+	@property
+	def area(self) -> float:
+		return 0.0
+
+	@property
+	def corners(self) -> int:
+		return 0
+
+
+class Square(Shape):
+	@override
+	@property
+	def area(self) -> float:
+		return self.side * self.side
+
+	@property
+	@override
+	def corners(self) -> int:
+		return 4
+
+
+class Box(Generic[T]):
+	v: T
+	items: list[T]
+	grid: dict[str, list[list[T]]]
+
+	def __init__(self, v: T) -> None:
+		self.v = v
+		self.items = [v]
+		self.grid = {'g': [[v]]}
+
+	def first(self) -> T:
+		return self.items[0]
+
+
+class IntBox(Box[int]):
+	step: int
+
+	def __init__(self, v: int) -> None:
+		super().__init__(v)
+		self.step = 2
+
+
+class Counter(IntBox):
+	def bump(self) -> int:
+		return self.v + self.step
+
+
+class Labeled(Box[str]):
+	pass
+
+
+class Tagged(Labeled):
+	pass
+
+
+def index_all[E](xs: list[E]) -> dict[str, list[tuple[int, E]]]:
+	return {'all': [(i, x) for i, x in enumerate(xs)]}
+
+
+def nest[E](v: E) -> list[list[list[E]]]:
+	return [[[v]]]
+
+
+def pairs_of[E](xs: list[E]) -> list[tuple[int, E]]:
+	return [(i, x) for i, x in enumerate(xs)]
+
+
+def protocols2(flag: bool) -> int:
+	sq = Square(1.5)
+	sq_area = sq.area
+	sq_corners = sq.corners
+	areas = [s.area for s in [sq, Square(2.0)]]
+	scaled = sq.area * 2.0
+	counter = Counter(3)
+	cv = counter.v
+	ci = counter.items
+	csum = counter.v + counter.step
+	cgrid = counter.grid
+	crow = counter.grid['g']
+	ccell = counter.grid['g'][0][0]
+	labeled = [Tagged('a'), Tagged('bc')]
+	lvs = [x.v for x in labeled]
+	ib = IntBox(1)
+	ibv = ib.v
+	indexed = index_all([1.5, 2.5])
+	irow = indexed['all']
+	ipair = indexed['all'][0]
+	ival = indexed['all'][0][1]
+	nested = nest(1)
+	nrow = nested[0]
+	ncell = nested[0][0][0]
+	for npart in nest('s'):
+		nlast = npart[0][0]
+	shallow = pairs_of(['a', 'b'])
+	sval = shallow[0][1]
+	return cv
+'''
+
+
 def operator_matrix() -> tuple[str, list]:
 	"""Deterministic program: every arithmetic operator over every pair of {int, float, bool} operands, every pair of operators in a
 	flat three-operand chain over int and int/float operands, unary minus, comparisons - each typed by CPython at run time."""
@@ -575,6 +725,8 @@ def shard(ctx: Ctx, acc: Acc) -> None:
 		for src, entries in WITNESSES:
 			acc.see('generator', 'witness')
 			check_program(acc, {'source': src, 'entries': entries})
+		acc.see('generator', 'witness')
+		check_program(acc, {'source': WITNESS_INHERITED_GENERIC_METHOD, 'entries': [['entry', [[1]]]], 'witness': 'inherited-generic-method'})
 	if ctx.shard == 1 % ctx.nshards:
 		src, entries = operator_matrix()
 		acc.see('generator', 'operator-matrix')
@@ -584,6 +736,7 @@ def shard(ctx: Ctx, acc: Acc) -> None:
 		# instantiated generics - executed with the condition both ways
 		acc.see('generator', 'protocol-fixture')
 		check_program(acc, {'source': PROTOCOLS, 'entries': [['protocols', [[True], [False]]]]})
+		check_program(acc, {'source': PROTOCOLS2, 'entries': [['protocols2', [[True]]]]})
 	for i in range(n):
 		if not ctx.mine(i):
 			continue
